@@ -174,6 +174,7 @@ type runner struct {
 	t0       time.Time
 	deadline time.Duration
 	skipped  map[string]int
+	samples  map[string]map[string]any
 }
 
 func (r *runner) fold(sh shard, rep *reply) {
@@ -197,7 +198,11 @@ func (r *runner) fold(sh shard, rep *reply) {
 		r.violationN(v.Sig, v.Detail, replayCase{Shard: one, Idx: v.Idx, Input: v.Input, What: "violation"}, v.Len, v.Count)
 	}
 	if rep.Sample != nil {
-		r.e.Sample(rep.Sample)
+		r.mu.Lock()
+		if _, ok := r.samples[sh.family()]; !ok {
+			r.samples[sh.family()] = rep.Sample
+		}
+		r.mu.Unlock()
 	}
 }
 
@@ -369,7 +374,7 @@ func main() {
 		return
 	}
 	e := vlib.StartExplore("C12")
-	r := &runner{e: e, types: map[string]int64{}, perFam: map[string]int64{}, viols: map[string]*vrec{}, t0: time.Now(), deadline: 50 * time.Second, skipped: map[string]int{}}
+	r := &runner{e: e, types: map[string]int64{}, perFam: map[string]int64{}, viols: map[string]*vrec{}, t0: time.Now(), deadline: 50 * time.Second, skipped: map[string]int{}, samples: map[string]map[string]any{}}
 	if e.Thorough() {
 		r.deadline = 540 * time.Second
 	}
@@ -567,6 +572,7 @@ func main() {
 	e.Finish(rule, skippedTotal == 0, extra, []string{
 		"decides the property for the enumerated neighbourhoods of valid encodings and for all short strings, not for all byte strings",
 		"the corpus is the C11 one-at-a-time grid as encoded by the library itself (protobuf map entries ordered by key to make the corpus deterministic)",
+		"internal deadline (50 s quick / 540 s thorough, for busy machines): shards not started by then are listed under shards_not_evaluated_internal_deadline and exhaustive is false; the bulky JSON substitution family is scheduled last",
 		"a call into the codec that takes more than 10 s, and more than 60 s when the input is re-run alone in a fresh process, is a hang",
 	})
 }
@@ -624,6 +630,21 @@ func (r *runner) violationN(sig, detail string, rc replayCase, size, count int) 
 }
 
 func (r *runner) flush() {
+	// one sample per family, the structure aware and byte level families first
+	var fams []string
+	for f := range r.samples {
+		fams = append(fams, f)
+	}
+	sort.Slice(fams, func(i, j int) bool {
+		ai, aj := strings.HasPrefix(fams[i], "a:"), strings.HasPrefix(fams[j], "a:")
+		if ai != aj {
+			return aj
+		}
+		return fams[i] > fams[j]
+	})
+	for _, f := range fams {
+		r.e.Sample(r.samples[f])
+	}
 	var sigs []string
 	for s := range r.viols {
 		sigs = append(sigs, s)
